@@ -234,6 +234,11 @@ func genC10RT(x *Ctx) {
 						tot = 4
 					}
 					ls := c.R.Range(2, tot-2)
+					if tot+5 <= baseMtu {
+						c.Tag("pair-fits")
+					} else {
+						c.Tag("pair-too-big")
+					}
 					stream = append(stream, h264Nal(c.R, 7, ls))
 					if c.R.Chance(1, 4) {
 						stream = append(stream, h264Nal(c.R, c.R.Pick(9, 12), 2))
@@ -263,9 +268,13 @@ func genC10RT(x *Ctx) {
 				}
 				calls[ci].units = append(calls[ci].units, h264Unit{four: c.R.Bool(), nal: nal})
 			}
+			if ncalls > 1 {
+				c.Tag("calls>1")
+			}
 			for k := range calls {
 				if len(calls[k].units) == 1 && c.R.Chance(1, 3) {
 					calls[k].bare = true
+					c.Tag("bare")
 				}
 				for _, u := range calls[k].units {
 					h264SizeTag(c, len(u.nal), calls[k].mtu)
